@@ -3,6 +3,7 @@
   comes out of the MDSDRV converter (`runWriterR` / `getSubroutineR` / `parseTracksR` of Model/Refs).
 -/
 import Ctrmml.Proofs.Refs
+import Ctrmml.Proofs.MdsHook
 namespace Ctrmml.Refs
 open Ctrmml Ctrmml.Lexer Ctrmml.TrackBuilder Ctrmml.Player Ctrmml.Mds Ctrmml.Tables
 
@@ -219,5 +220,180 @@ theorem errSite_onSomeTrack {rs : RSong} {root : List BEvent} {x : RErr} (h : Er
       rcases hw with rfl | hw
       · exact Or.inr ⟨id, hev⟩
       · exact Or.inr hw
+
+/-! ### which event an error of the hook is about -/
+
+/-- the event a writer step hands to `event_hook` is the event it fetched — except on the final pass
+of a loop, where a fetched `LOOP_BREAK` is replaced by the loop's `LOOP_END` event -/
+theorem stepTrace_item_fetched (song : Song) (root : List Event) (lh : Bool) (s st' : PState) (it : TraceItem)
+    (h : stepTrace song root lh s = .ok (st', some (some it))) :
+    it.ev = fetch (codeOf song root s.core.track) s.core.position ∨
+    (fetch (codeOf song root s.core.track) s.core.position).kind = .loopBreak := by
+  unfold stepTrace at h
+  cases hc : coreStep song root s.core with
+  | error e => rw [hc] at h; cases h
+  | ok p =>
+    obtain ⟨c', o⟩ := p
+    rw [hc] at h
+    simp only [] at h
+    cases o with
+    | ret e =>
+      exfalso
+      simp only [accStep] at h
+      cases h
+    | rootEnd e =>
+      exfalso
+      simp only [accStep] at h
+      split at h <;> cases h
+    | hook v f =>
+      have hv : it.ev = v := by
+        simp only [accStep] at h
+        split at h <;> (cases h; rfl)
+      rw [hv]
+      unfold coreStep at hc
+      simp only [] at hc
+      split at hc
+      case h_2 hk => exact Or.inr hk
+      all_goals
+        repeat' split at hc
+      all_goals first
+        | (cases hc; done)
+        | (cases hc; exact Or.inl rfl)
+
+theorem flushRest_drumEnabled (w : WState) : (flushRest w).drumEnabled = w.drumEnabled := by
+  unfold flushRest; split <;> rfl
+
+theorem prep_drumEnabled (w : WState) (it : TraceItem) : (prep w it).drumEnabled = w.drumEnabled := by
+  unfold prep
+  simp only []
+  split <;> split <;> simp [flushRest_drumEnabled]
+
+theorem ite_eq_cases {α : Type} {c : Prop} {_ : Decidable c} {a b v : α} (h : (if c then a else b) = v) :
+    (c ∧ a = v) ∨ (¬c ∧ b = v) := by
+  split at h
+  · exact Or.inl ⟨‹_›, h⟩
+  · exact Or.inr ⟨‹_›, h⟩
+
+theorem checkInstrument_error (d : DataInfo) (t p : Int) (x : WErr) (h : checkInstrument d t p = .error x) :
+    x = .insType := by
+  unfold checkInstrument at h
+  cases hl : d.insType.lookup p with
+  | none => rw [hl] at h; cases h
+  | some ty0 =>
+    rw [hl] at h
+    simp only [] at h
+    rcases ite_eq_cases h with ⟨_, h⟩ | ⟨_, h⟩
+    · cases h; rfl
+    rcases ite_eq_cases h with ⟨_, h⟩ | ⟨_, h⟩
+    · cases h; rfl
+    rcases ite_eq_cases h with ⟨_, h⟩ | ⟨_, h⟩
+    · cases h; rfl
+    · cases h
+
+/-- what an error of the `switch` of `event_hook` is about -/
+def HookErrAbout (it : TraceItem) (drumEnabled : Bool) (x : WErr) : Prop :=
+  (it.ev.type = ev_INS ∧ (x = .insType ∨ x = .insMissing)) ∨
+  (it.ev.type = ev_PLATFORM ∧ (x = .platformMissing ∨ x = .platformBad)) ∨
+  (it.ev.type = ev_PITCH_ENVELOPE ∧ x = .pitchMissing) ∨
+  (it.ev.type = ev_NOTE ∧ (drumEnabled = false → x = .noteRange)) ∨
+  it.ev.type = ev_JUMP ∨ it.ev.type = ev_PAN_ENVELOPE
+
+theorem hookVis_error_event (song : Song) (d : DataInfo) (n : Nat) (c : Conv) (w : WState) (it : TraceItem) (x : WErr)
+    (h : hookVis song d n c w it = .error x) : HookErrAbout it w.drumEnabled x := by
+  unfold hookVis at h
+  unfold HookErrAbout
+  rcases ite_eq_cases h with ⟨_, h⟩ | ⟨_, h⟩
+  · cases h
+  rcases ite_eq_cases h with ⟨hty, h⟩ | ⟨_, h⟩
+  · -- NOTE
+    refine Or.inr (Or.inr (Or.inr (Or.inl ⟨hty, ?_⟩)))
+    intro hd
+    simp only [hd, Bool.false_eq_true, if_false] at h
+    repeat' split at h
+    all_goals first
+      | (cases h; done)
+      | (cases h; rfl)
+  rcases ite_eq_cases h with ⟨_, h⟩ | ⟨_, h⟩
+  · cases h
+  rcases ite_eq_cases h with ⟨_, h⟩ | ⟨_, h⟩
+  · cases h
+  rcases ite_eq_cases h with ⟨_, h⟩ | ⟨_, h⟩
+  · cases h
+  rcases ite_eq_cases h with ⟨_, h⟩ | ⟨_, h⟩
+  · cases h
+  rcases ite_eq_cases h with ⟨hty, h⟩ | ⟨_, h⟩
+  · exact Or.inr (Or.inr (Or.inr (Or.inr (Or.inl hty))))
+  rcases ite_eq_cases h with ⟨_, h⟩ | ⟨_, h⟩
+  · cases h
+  rcases ite_eq_cases h with ⟨hty, h⟩ | ⟨_, h⟩
+  · refine Or.inr (Or.inl ⟨hty, ?_⟩)
+    repeat' split at h
+    all_goals first
+      | (cases h; done)
+      | (cases h; exact Or.inl rfl)
+      | (cases h; exact Or.inr rfl)
+  rcases ite_eq_cases h with ⟨_, h⟩ | ⟨_, h⟩
+  · cases h
+  rcases ite_eq_cases h with ⟨_, h⟩ | ⟨_, h⟩
+  · cases h
+  rcases ite_eq_cases h with ⟨_, h⟩ | ⟨_, h⟩
+  · cases h
+  rcases ite_eq_cases h with ⟨_, h⟩ | ⟨_, h⟩
+  · cases h
+  rcases ite_eq_cases h with ⟨hty, h⟩ | ⟨_, h⟩
+  · refine Or.inl ⟨hty, ?_⟩
+    split at h
+    · rename_i y hy
+      cases h
+      exact Or.inl (checkInstrument_error _ _ _ _ hy)
+    · repeat' split at h
+      all_goals first
+        | (cases h; done)
+        | (cases h; exact Or.inr rfl)
+  rcases ite_eq_cases h with ⟨_, h⟩ | ⟨_, h⟩
+  · cases h
+  rcases ite_eq_cases h with ⟨_, h⟩ | ⟨_, h⟩
+  · cases h
+  rcases ite_eq_cases h with ⟨_, h⟩ | ⟨_, h⟩
+  · cases h
+  rcases ite_eq_cases h with ⟨_, h⟩ | ⟨_, h⟩
+  · cases h
+  rcases ite_eq_cases h with ⟨hty, h⟩ | ⟨_, h⟩
+  · exact Or.inr (Or.inr (Or.inr (Or.inr (Or.inr hty))))
+  rcases ite_eq_cases h with ⟨hty, h⟩ | ⟨_, h⟩
+  · refine Or.inr (Or.inr (Or.inl ⟨hty, ?_⟩))
+    repeat' split at h
+    all_goals first
+      | (cases h; done)
+      | (cases h; rfl)
+  rcases ite_eq_cases h with ⟨_, h⟩ | ⟨_, h⟩
+  · cases h
+  rcases ite_eq_cases h with ⟨_, h⟩ | ⟨_, h⟩
+  · cases h
+  rcases ite_eq_cases h with ⟨_, h⟩ | ⟨_, h⟩
+  · cases h
+  · cases h
+
+/-- errors of `event_hook` (nesting fuel aside): only six event types can fail, and for an
+instrument, platform or pitch-envelope command and for a note outside drum mode the error is the
+one about that very event -/
+theorem hook_error_event (song : Song) (d : DataInfo) (fuel : Nat) (c : Conv) (w : WState) (it : TraceItem) (x : WErr)
+    (h : hook song d fuel c w it = .error x) : x = .fuel ∨ HookErrAbout it w.drumEnabled x := by
+  cases fuel with
+  | zero => simp only [hook] at h; cases h; exact Or.inl rfl
+  | succ n =>
+    rw [hook_succ_eq] at h
+    split at h
+    · split at h
+      · rename_i hty
+        split at h
+        · rename_i y hy
+          cases h
+          exact Or.inr (Or.inl ⟨hty, Or.inl (checkInstrument_error _ _ _ _ hy)⟩)
+        · cases h
+      · cases h
+    · have := hookVis_error_event song d n c (prep w it) it x h
+      rw [prep_drumEnabled] at this
+      exact Or.inr this
 
 end Ctrmml.Refs
